@@ -1091,8 +1091,9 @@ func closureShape(fn *ssa.Function) string {
 
 // rebindClosures: function literals are named by ordinal (F$3$1), so adding or removing an unrelated literal in F
 // renumbers them. bindings.json records the shape of every literal under contract; a contract whose literal no
-// longer exists under its name is bound to the only literal of the same enclosing function with that shape that
-// has no contract of its own (noted as an assumption). Contracts, units and obligations keep the recorded name.
+// longer exists under its name - or whose name is now carried by a literal of another shape - is bound to the only
+// literal of the same enclosing function with the recorded shape that is not legitimately held by another contract
+// (noted as an assumption). Contracts, units and obligations keep the recorded name.
 func (e *Engine) rebindClosures(specs *Specs) {
 	if e.recBindings != nil {
 		m := map[string]string{}
@@ -1112,36 +1113,60 @@ func (e *Engine) rebindClosures(specs *Specs) {
 		return
 	}
 	var missing []*Contract
+	held := map[string]bool{} // literals legitimately bound to a contract under their own name
 	for _, c := range specs.Order {
 		key := c.Key()
-		if strings.Contains(key, "~") || !strings.Contains(key, "$") || e.fnByKey[key] != nil || shapes[key] == "" {
+		if strings.Contains(key, "~") || !strings.Contains(key, "$") {
+			continue
+		}
+		fn := e.fnByKey[key]
+		if shapes[key] == "" || (fn != nil && closureShape(fn) == shapes[key]) {
+			if fn != nil {
+				held[key] = true
+			}
 			continue
 		}
 		missing = append(missing, c)
 	}
+	type rb struct {
+		c    *Contract
+		cand string
+	}
+	var rebound []rb
 	taken := map[string]bool{}
 	for _, c := range missing {
 		key := c.Key()
 		parent := key[:strings.Index(key, "$")]
 		var cands []string
 		for k, fn := range e.fnByKey {
-			if !strings.HasPrefix(k, parent+"$") || taken[k] {
-				continue
-			}
-			if _, has := specs.Contracts[k]; has {
+			if !strings.HasPrefix(k, parent+"$") || taken[k] || held[k] {
 				continue
 			}
 			if closureShape(fn) == shapes[key] {
 				cands = append(cands, k)
 			}
 		}
-		if len(cands) != 1 {
-			continue
+		if len(cands) == 1 {
+			taken[cands[0]] = true
+			rebound = append(rebound, rb{c, cands[0]})
+			e.notes = append(e.notes, fmt.Sprintf("%s: the function literal %s no longer has the recorded shape under that name; its contract is bound to %s, the only literal of %s with that shape (%s)", shortUnit(c), key, cands[0], parent, shapes[key]))
 		}
-		taken[cands[0]] = true
-		e.fnByKey[key] = e.fnByKey[cands[0]]
-		specs.Contracts[cands[0]] = c
-		e.notes = append(e.notes, fmt.Sprintf("%s: the function literal %s no longer exists under that name; its contract is bound to %s, the only literal of %s with the recorded shape (%s)", shortUnit(c), key, cands[0], parent, shapes[key]))
+	}
+	// apply together: a name may be vacated by one contract and taken by another
+	target := map[string]*ssa.Function{}
+	for _, r := range rebound {
+		target[r.c.Key()] = e.fnByKey[r.cand]
+	}
+	for _, c := range missing {
+		// the literal now carrying this name is not the one the contract was written for
+		if specs.Contracts[c.Key()] == c {
+			delete(specs.Contracts, c.Key())
+		}
+		delete(e.fnByKey, c.Key())
+	}
+	for _, r := range rebound {
+		e.fnByKey[r.c.Key()] = target[r.c.Key()]
+		specs.Contracts[r.cand] = r.c
 	}
 }
 
